@@ -59,6 +59,13 @@ func faultKinds(op string) []string {
 	if op == "GetMetadataSigningKey" || op == "GetResponseSigningKey" {
 		return []string{sim.FaultError, sim.FaultTimeout, sim.FaultTemporary, sim.FaultPoolClosed, sim.FaultNilRecord, sim.FaultKeyNoCert, sim.FaultCertNoKey, sim.FaultEmptyCert}
 	}
+	switch op {
+	case "GetEntityByID":
+		// a failing lookup may still hand back what it had (a stale or half-checked record) beside its error
+		return []string{sim.FaultError, sim.FaultTimeout, sim.FaultTemporary, sim.FaultPoolClosed, sim.FaultRecordAndError}
+	case "AuthRequestByID":
+		return []string{sim.FaultError, sim.FaultTimeout, sim.FaultTemporary, sim.FaultPoolClosed, sim.FaultRecordAndError, sim.FaultTypedNil}
+	}
 	return []string{sim.FaultError, sim.FaultTimeout, sim.FaultTemporary, sim.FaultPoolClosed}
 }
 
